@@ -5,11 +5,11 @@ EXTENDS Integers, Sequences, FiniteSets, TLC, Json, IOUtils
 CONSTANTS FixRestrict
 Trace == ndJsonDeserialize(IOEnv.TRACE_FILE)
 VARIABLES l, index, cons, rootMain, head, last
-Universe == {"a1", "a2", "a3", "a4", "b1", "b2", "b3", "c2", "c3", "d3", "m1"}
-Parent == [a1 |-> "g", a2 |-> "a1", a3 |-> "a2", a4 |-> "a3", b1 |-> "g", b2 |-> "b1", b3 |-> "b2", c2 |-> "b1", c3 |-> "c2", d3 |-> "c2", m1 |-> "g"]
-Height == [a1 |-> 1, a2 |-> 2, a3 |-> 3, a4 |-> 4, b1 |-> 1, b2 |-> 2, b3 |-> 3, c2 |-> 2, c3 |-> 3, d3 |-> 3, m1 |-> 1]
-Root == [a1 |-> "ra1", a2 |-> "ra2", a3 |-> "ra3", a4 |-> "ra4", b1 |-> "rb1", b2 |-> "rb2", b3 |-> "rb3", c2 |-> "rb2", c3 |-> "rc3", d3 |-> "rc3", m1 |-> "rm1"]
-Valid == [a1 |-> TRUE, a2 |-> TRUE, a3 |-> TRUE, a4 |-> TRUE, b1 |-> TRUE, b2 |-> TRUE, b3 |-> TRUE, c2 |-> TRUE, c3 |-> TRUE, d3 |-> TRUE, m1 |-> FALSE]
+Universe == {"a1", "a2", "a3", "a4", "b1", "b2", "b3", "c2", "c3", "d3", "m1", "n2", "p2", "k1", "l1"}
+Parent == [a1 |-> "g", a2 |-> "a1", a3 |-> "a2", a4 |-> "a3", b1 |-> "g", b2 |-> "b1", b3 |-> "b2", c2 |-> "b1", c3 |-> "c2", d3 |-> "c2", m1 |-> "g", n2 |-> "a1", p2 |-> "b1", k1 |-> "g", l1 |-> "g"]
+Height == [a1 |-> 1, a2 |-> 2, a3 |-> 3, a4 |-> 4, b1 |-> 1, b2 |-> 2, b3 |-> 3, c2 |-> 2, c3 |-> 3, d3 |-> 3, m1 |-> 1, n2 |-> 2, p2 |-> 2, k1 |-> 1, l1 |-> 1]
+Root == [a1 |-> "ra1", a2 |-> "ra2", a3 |-> "ra3", a4 |-> "ra4", b1 |-> "rb1", b2 |-> "rb2", b3 |-> "rb3", c2 |-> "rb2", c3 |-> "rc3", d3 |-> "rc3", m1 |-> "rm1", n2 |-> "rn2", p2 |-> "rp2", k1 |-> "rk1", l1 |-> "rl1"]
+Valid == [a1 |-> TRUE, a2 |-> TRUE, a3 |-> TRUE, a4 |-> TRUE, b1 |-> TRUE, b2 |-> TRUE, b3 |-> TRUE, c2 |-> TRUE, c3 |-> TRUE, d3 |-> TRUE, m1 |-> FALSE, n2 |-> FALSE, p2 |-> FALSE, k1 |-> FALSE, l1 |-> TRUE]
 INSTANCE ETHClient
 SetOf(s) == {s[i] : i \in DOMAIN s}
 ln(k) == Trace[k]
